@@ -144,6 +144,11 @@ def shadow_bookkeeping_rule(F, R, rid):
 
 
 def run(F, R, ctx):
+    _run(F, R, ctx)
+    transitive_rescue_rule(F, R)
+
+
+def _run(F, R, ctx):
     R.rule("C06.T1", "GIDX_C ⊆ GIDX_V: every opcode that the index interner (DebruijnIndicesInterner) stamps with a "
                      "SymbolMap index is executed by an interpreter arm that uses the payload as a global-slot index")
     R.rule("C06.T2", "every bytecode scanner that singles out global-index opcodes (GlobalSlotRecycler::visit_closure, "
@@ -227,3 +232,42 @@ def run(F, R, ctx):
                "%s mutates the global-slot free list; only the recycler may add slots and only pop_next_free may take "
                "them" % lib.short_name(n), F.fns[n].loc(), sample=True)
     shadow_bookkeeping_rule(F, R, "C06.S")
+
+
+def transitive_rescue_rule(F, R):
+    R.rule("C06.Q", "the recycler keeps everything a rescued global refers to: a shadowed slot that the walk finds referenced "
+                    "(removed from GlobalSlotRecycler.slots by the bytecode scan) holds a function that is still callable, so "
+                    "its own references must be scanned too — (1) in the scanner the result of every `slots.remove(..)` is "
+                    "branched on and the removed slot is recorded in a work-list field of the recycler, (2) "
+                    "GlobalSlotRecycler::recycle drains that work-list in a loop, pushing the slot's value and visiting "
+                    "again. Otherwise old f -> old g -> old h loses h: its slot is voided / handed to a later definition "
+                    "while f can still reach it")
+    sc = F.one(r"\{impl BreadthFirstSearchSteelValVisitor for GlobalSlotRecycler\}::visit_closure$")
+    rec = F.one(r"\{impl GlobalSlotRecycler\}::recycle$")
+    removes = [(i, b) for i, b in sc.calls() if re.search(r"HashSet<T,S,A>\}::remove$", b["callee"])]
+    if not removes:
+        raise CheckError("anchor lost: GlobalSlotRecycler::visit_closure no longer removes referenced slots from its candidate set")
+    ok1 = True
+    for i, b in removes:
+        t, f = lib.bool_branch(sc, i)
+        rec_push = False
+        if t is not None:
+            region = sc.reachable_from([t], avoid=[f] if f is not None else [])
+            for x in region:
+                blk = sc.blocks[x]
+                if blk["k"] == "call" and re.search(r"Vec<T,A>\}::push$", blk["callee"]) and blk["targs"] and \
+                        blk["targs"][0] in ("usize",):
+                    rec_push = True
+        ok1 = ok1 and rec_push
+    R.inst("C06.Q", "GlobalSlotRecycler::visit_closure / a rescued slot is recorded for scanning", ok1,
+           "GlobalSlotRecycler::visit_closure drops the result of slots.remove(..): a shadowed global that is still referenced "
+           "is kept, but the globals its own body refers to are not — after >100 redefinitions, old f -> old g -> old h calls "
+           "#<void> or an unrelated later definition", sc.loc(removes[0][1]["line"]), sample=True)
+    visits = [i for i, b in rec.calls() if re.search(r"GlobalSlotRecycler\}::visit$", b["callee"])]
+    looped = [v for v in visits if v in rec.reachable_from(rec.succ(v))]
+    reads_roots = any(re.search(r"Index<I> for \[T\]\}::index$|\{impl \[T\]\}::get$", b["callee"]) for i, b in rec.calls()
+                      if any(v in rec.reachable_from(rec.succ(i)) and i in rec.reachable_from(rec.succ(v)) for v in looped))
+    R.inst("C06.Q", "GlobalSlotRecycler::recycle / re-visits from the rescued slots until none is left",
+           bool(looped) and reads_roots,
+           "GlobalSlotRecycler::recycle visits once from the globals that are not candidates and never from the values of the "
+           "candidate slots it found referenced: the walk is not transitive", rec.loc(), sample=True)
